@@ -7,5 +7,5 @@ git -C $wt reset -q --hard "$(git -C /repo rev-parse HEAD)"
 p=$1; [ -f "$p" ] || p=$PWD/seeded/$1/patch.diff
 git -C $wt apply "$p" || exit 9
 pid=$2; shift 2
-./check $pid --root $wt --no-evidence "$@" 2>&1 | grep -E "^(VIOLATION|CHECKER-ERROR|UNDECIDED|ERROR|KNOWN)|exit=|Traceback|Error" | grep -v "^KNOWN" | cut -c1-260 | head -${LINES_MAX:-12}
+VERIF_REPLAYS=${wt}_replays ./check $pid --root $wt --no-evidence "$@" 2>&1 | grep -E "^(VIOLATION|CHECKER-ERROR|UNDECIDED|ERROR|KNOWN)|exit=|Traceback|Error" | grep -v "^KNOWN" | cut -c1-260 | head -${LINES_MAX:-12}
 git -C $wt reset -q --hard HEAD
